@@ -599,13 +599,13 @@ def item_templates(ctx, rid):
     E = "P0.kind@TypeIRKind::Enum.0"
     exp_struct = ("{Extend::extend(P1,T[#0 #1 pub struct #2 #3 #4 #5](P0.derives,TypeIR::docs(P0),TypeIR::ident(P0),P0.type_params,"
                   "CompositeIR::struct_field_tokens(%s,TypeParameters::unused_params_phantom_data(P0.type_params),P0.insert_codec_attributes,P2),"
-                  "bool::then(match(%s.kind){CompositeIRKind::NoFields|CompositeIRKind::Unnamed(_)=>true;_=>false},|0|{T[;]()})))}") % (S, S)
+                  "then(match(%s.kind){CompositeIRKind::NoFields|CompositeIRKind::Unnamed(_)=>true;_=>false},T[;]())))}") % (S, S)
     if "Struct" in arms:
         expect_term(ctx, rid, "item/struct", fn["sp"], arms["Struct"], exp_struct,
                     "`#derives #docs pub struct #ident #generics #fields #semi`; `;` iff the struct is a unit or tuple struct; marker from the unused-parameter set")
     else:
         ctx.bad(rid, "item/struct", fn["sp"], "no Struct arm")
-    VAR = ("Iterator::collect(Iterator::map(%s.variants,|1|{T[#0 #1 #2 #3](bool::then(P0.insert_codec_attributes,|0|{T[# [ codec ( index = #0 ) ]](Literal::u8_unsuffixed(C1_0.0))}),"
+    VAR = ("Iterator::collect(Iterator::map(%s.variants,|1|{T[#0 #1 #2 #3](then(P0.insert_codec_attributes,T[# [ codec ( index = #0 ) ]](Literal::u8_unsuffixed(C1_0.0))),"
            "C1_0.1.docs,C1_0.1.name,CompositeIR::enum_field_tokens(C1_0.1,P0.insert_codec_attributes,P2))}))") % E
     PH = "TypeParameters::unused_params_phantom_data(P0.type_params)"
     VARS = "mut[%s;.Vec::push(T[__Ignore ( #0 )](%s@v1::Some.0)) if P0.kind~TypeIRKind::Enum($)&&let v1::Some($)=%s]" % (VAR, PH, PH)
@@ -637,7 +637,7 @@ def field_templates(ctx, rid, strict_alloc=True):
     i_fl = q.param_index(sf, lambda t: t == "bool")
     i_st = q.param_index(sf, lambda t: t.endswith("TypeGeneratorSettings"))
     PH, FL, ST = "P%d" % i_ph, "P%d" % i_fl, "P%d" % i_st
-    SKIP = "bool::then(%s,|0|{T[# [ codec ( skip ) ]]()})" % FL
+    SKIP = "then(%s,T[# [ codec ( skip ) ]]())" % FL
     exp_s = ("match(P0.kind){CompositeIRKind::NoFields=>if(let v1::Some($)=%s){T[( pub #0 )](%s@v1::Some.0)}else{T[]()};"
              "CompositeIRKind::Named($)=>T[{ #( #0 , )* #1 }](Iterator::map(P0.kind@CompositeIRKind::Named.0,|1|{T[#0 pub #1 : #2](%s,C1_0.0,ToTokensWithSettings::to_token_stream(C1_0.1,%s))}),"
              "Option::map(%s,|1|{T[#0 pub __ignore : #1](%s,C1_0)}));"
@@ -660,7 +660,7 @@ def field_templates(ctx, rid, strict_alloc=True):
         ctx.bad(rid, "missing-anchor/compact_attr", "", "CompositeFieldIR::compact_attr not found")
     else:
         expect_term(ctx, rid, "fields/compact-attr", ca["sp"], _norm(ctx, ca).term(ca["body"]),
-                    "bool::then(P0.is_compact,|0|{T[# [ codec ( compact ) ]]()})", "`#[codec(compact)]` iff the field is compact")
+                    "then(P0.is_compact,T[# [ codec ( compact ) ]]())", "`#[codec(compact)]` iff the field is compact")
     bw = [b for b in q.fn_by_suffix(ctx.P, "ToTokensWithSettings>::to_tokens", "scale_typegen") if "CompositeFieldIR as" in b["path"]]
     if len(bw) != 1:
         ctx.bad(rid, "missing-anchor/CompositeFieldIR::to_tokens", "", "impl ToTokensWithSettings for CompositeFieldIR not found")
@@ -900,7 +900,8 @@ def id_opacity(ctx, rid, crates=("scale_typegen", "scale_typegen_description")):
         if "body" not in b or q.derived(b):
             continue
         N = None
-        for n in walk(b["body"]):
+        from .core.ir import walk_with_parents as _wwp
+        for n, _parents in _wwp(b["body"]):
             k = n.get("k")
             if k == "Binary" and n["op"] in ("<", ">", "<=", ">=", "+", "-", "*", "/", "%", "^", "<<", ">>", "&", "|"):
                 lt, rt = n["l"].get("ty"), n["r"].get("ty")
@@ -908,7 +909,13 @@ def id_opacity(ctx, rid, crates=("scale_typegen", "scale_typegen_description")):
                     N = N or _norm(ctx, b)
                     n_ops += 1
                     ts = show(N.term(n))
-                    if ID_RX.search(ts):
+                    # a comparison that only guards `return Err(..)` is an error payload sink, not an output dependence
+                    guard_only = False
+                    for pi, par in enumerate(_parents):
+                        if par.get("k") == "If" and any(x is n for x in walk(par["cond"])):
+                            tt = show(N.term(par["then"]))
+                            guard_only = tt.startswith("return Err(") and "else" not in par
+                    if ID_RX.search(ts) and not guard_only:
                         ctx.bad(rid, "id-opacity/arith-or-order/%s/%s" % (cshort(b["path"]), n["op"]), n["sp"],
                                 "a type id takes part in `%s` (%s): output would depend on the numbering of the registry" % (n["op"], ts[:160]))
             elif k == "MethodCall" and cshort(n.get("callee", "")) in ("Ord::cmp", "PartialOrd::partial_cmp", "Ord::max", "Ord::min", "slice::sort_by_key", "Iterator::max_by_key", "Iterator::min_by_key"):
@@ -941,7 +948,7 @@ def id_opacity(ctx, rid, crates=("scale_typegen", "scale_typegen_description")):
             continue
         from .core.ir import walk_with_parents
         for n, parents in walk_with_parents(b["body"]):
-            if n.get("k") == "MethodCall" and n["name"] in k8.ITER_METHODS | {"first", "last", "pop_first", "pop_last", "range"}:
+            if n.get("k") == "MethodCall" and n["name"] in (k8.ITER_METHODS - {"retain"}) | {"first", "last", "pop_first", "pop_last", "range"}:
                 rt = peel(n["recv"].get("adj") or n["recv"].get("ty", ""))
                 if rt.startswith(id_keyed):
                     n_it += 1
